@@ -177,6 +177,39 @@ var xUnits = []xUnit{
 	{Name: "tr_tup_Encode_entry", Dir: "tars/protocol/tup", Func: "UniAttribute.Encode", Writer: tupWriter, Deep: true,
 		From: "err = os.WriteString(k, 0)", To: "err = os.WriteBytes(v)", Outs: []string{"err"}, After: []string{"if err != nil {\n\treturn err\n}"}},
 	{Name: "tr_tup_Decode", Dir: "tars/protocol/tup", Func: "UniAttribute.Decode", State: tupReader, Recv: true, Fuel: true, StrMaps: true},
+	// C07: the receive loops per read EVENT that is not data (conn.Read returned an error): return, or next round with the buffer
+	{Name: "tr_srv_recv_event", Dir: "tars/transport", Func: "tcpHandler.recv", Deep: true, LoopBody: true, NilIsEmpty: []string{"currBuffer"},
+		From: "if err != nil {", To: "if err != nil {", Outs: []string{"currBuffer"}, After: []string{"currBuffer = append(currBuffer, buffer[:n]...)", "for {"},
+		Oracles: map[string]xOracle{"atomic.LoadInt32(&t.server.isClosed)": {"is_closed", "Z"}, "time.Now().Unix()": {"now_", "Z"},
+			"isNoDataError(err)": {"no_data", "bool"}, "err == io.EOF": {"is_eof", "bool"}},
+		Reads: map[string]xOracle{"connSt.numInvoke": {"num_invoke", "Z"}, "connSt.idleTime": {"idle_time", "Z"}, "cfg.IdleTimeout": {"idle_timeout", "Z"}},
+		Ignore: []string{`TLOG.Debugf("%s closed: %d, read %d, nil buff: %d, err: %v", t.server.config.Address, atomic.LoadInt32(&t.server.isClosed), n, len(currBuffer), err)`,
+			`TLOG.Debug("connection closed by remote:", conn.RemoteAddr())`, `TLOG.Error("read package error:", reflect.TypeOf(err), err)`}},
+	{Name: "tr_cli_recv_event", Dir: "tars/transport", Func: "connection.recv", Deep: true, LoopBody: true,
+		From: "if err != nil {", To: "if err != nil {", Outs: []string{"currBuffer"}, After: []string{"currBuffer = append(currBuffer, buffer[:n]...)", "for {"},
+		Oracles: map[string]xOracle{"isNoDataError(err)": {"no_data", "bool"}, "err.(*net.OpError)": {"is_op_error", "bool"}, "err == io.EOF": {"is_eof", "bool"}},
+		Ignore: []string{`TLOG.Errorf("net.OpError: %v, error: %v", conn.RemoteAddr(), err)`, `TLOG.Debugf("connection closed by remote: %v, error: %v", conn.RemoteAddr(), err)`,
+			`TLOG.Errorf("read package error: %v", err)`, "c.close(conn)"}},
+	// C08 / C01 / C09: ServantProxy.TarsInvoke, the request packet and the effective timeout
+	{Name: "tr_TarsInvoke_req", Dir: "tars", Func: "ServantProxy.TarsInvoke", Recv: true, StrMaps: true,
+		From: "req := requestf.RequestPacket{", To: "req := requestf.RequestPacket{", Outs: []string{"req"},
+		Oracles: map[string]xOracle{"s.genRequestID()": {"gen_request_id", "Z"}, "tools.ByteToInt8(buf)": {"sbuffer", "list Z"}}},
+	{Name: "tr_TarsInvoke_timeout", Dir: "tars", Func: "ServantProxy.TarsInvoke", Recv: true,
+		Writer: &xWriter{Type: "list Z", Prims: map[string]xPrim{"context.WithTimeout": {"go_arm", []int{1}}}},
+		From:   "timeout := time.Duration(s.timeout) * time.Millisecond", To: "if dl, ok := ctx.Deadline(); ok {", Outs: []string{"timeout", "req"},
+		Funcs:   map[string]xOracle{"current.GetClientTimeout": {"client_timeout", "bool * Z * bool"}},
+		Oracles: map[string]xOracle{"ctx.Deadline()": {"has_deadline", "bool"}, "time.Until(dl)": {"until_deadline", "Z"}},
+		Ignore:  []string{"var cancel context.CancelFunc", "defer cancel()"}},
+	// C08 / C09: AdapterProxy.Recv after the decoding: push, one-way drop, lookup by the packet's id, hand-over racing with the ReadTimeout timer
+	{Name: "tr_adapter_Recv", Dir: "tars", Func: "AdapterProxy.Recv",
+		From: "if packet.IRequestId == 0 {", To: "if ok {", After: []string{},
+		Writer: &xWriter{Type: "list (Z * Z)", Prims: map[string]xPrim{"c.onPush": {"go_tag 1 0", []int{}}, "chan<-": {"go_tag 2 0", []int{}},
+			"rtimer.After": {"go_tag 3", []int{0}}}},
+		Oracles: map[string]xOracle{"packet.IRequestId": {"pkt_id", "Z"}, "packet.CPacketType": {"pkt_type", "Z"}, "c.conf.ReadTimeout": {"read_timeout", "Z"},
+			"c.resp.Load(packet.IRequestId)": {"found", "bool"}, "select": {"select_", "Z"}},
+		Ignore: []string{"ch := chIF.(chan *requestf.ResponsePacket)",
+			"TLOG.Errorf(\"response timeout, write channel error, now time :%v, RequestId:%v\",\n\ttime.Now().UnixNano()/1e6, packet.IRequestId)",
+			"TLOG.Errorf(\"response timeout, req has been drop, now time :%v, RequestId:%v\",\n\ttime.Now().UnixNano()/1e6, packet.IRequestId)"}},
 	{Name: "tr_cli_recv_chunk", Dir: "tars/transport", Func: "connection.recv", Deep: true, Fuel: true,
 		From: "currBuffer = append(currBuffer, buffer[:n]...)", To: "for {", Outs: []string{"currBuffer"}, After: []string{}, Fresh: []string{"currBuffer"},
 		Writer: &xWriter{Type: "list (list N)", Prims: map[string]xPrim{"c.client.protocol.Recv": {"go_deliver", []int{0}}}},
@@ -278,7 +311,7 @@ func newXLoader(root string) *xLoader {
 }
 
 func (l *xLoader) Import(path string) (*types.Package, error) {
-	if path == "encoding/binary" || path == "math" || path == "bytes" || path == "time" || path == "io" || path == "sync/atomic" || path == "sort" {
+	if path == "encoding/binary" || path == "math" || path == "bytes" || path == "time" || path == "io" || path == "sync/atomic" || path == "sort" || path == "context" || path == "sync" {
 		return l.std.Import(path)
 	}
 	if l.mod != "" && strings.HasPrefix(path, l.mod+"/") {
@@ -660,7 +693,11 @@ func xlateUnit(root string, u *xUnit, units []xUnit, ld *xLoader, records map[st
 			x.fail(fd, "%d statements follow the slice, the unit expects %d", len(after), len(u.After))
 		}
 		for i, s := range after {
-			if x.src(s) != u.After[i] {
+			got := x.src(s)
+			if strings.HasSuffix(u.After[i], "{") { // a compound statement pinned by its header only (its body belongs to another unit)
+				got = strings.SplitN(got, "\n", 2)[0]
+			}
+			if got != u.After[i] {
 				x.fail(s, "statement after the slice changed: %q, the unit expects %q", x.src(s), u.After[i])
 			}
 		}
@@ -698,6 +735,14 @@ func xlateUnit(root string, u *xUnit, units []xUnit, ld *xLoader, records map[st
 				}
 				return true
 			})
+		}
+		for _, o := range u.Outs { // a variable handed on that the statements do not mention is a parameter all the same
+			for id, obj := range x.info.Defs {
+				if v, ok := obj.(*types.Var); ok && id.Name == o && fd.Pos() <= v.Pos() && v.Pos() < lo && !seen[v] && !v.IsField() {
+					seen[v] = true
+					free = append(free, v)
+				}
+			}
 		}
 		sort.Slice(free, func(i, j int) bool { return free[i].Pos() < free[j].Pos() })
 		for _, v := range free {
@@ -777,7 +822,7 @@ func xlateUnit(root string, u *xUnit, units []xUnit, ld *xLoader, records map[st
 		}
 		ast.Inspect(fd.Body, func(n ast.Node) bool {
 			if id, ok := n.(*ast.Ident); ok && id.Pos() >= hi {
-				if o := x.info.Uses[id]; o != nil && set[o] && !handed[o] {
+				if o := x.info.Uses[id]; o != nil && set[o] && !handed[o] && x.translatable(o.Type()) { // (a variable outside the subset carries no value of the translation)
 					x.fail(id, "%s is set by the translated statements and used after them, but is not among the unit's outputs", id.Name)
 				}
 			}
@@ -790,6 +835,10 @@ func xlateUnit(root string, u *xUnit, units []xUnit, ld *xLoader, records map[st
 		var term string
 		term, stateT, _ = x.state(fd, outs)
 		final = "Next " + term
+		if u.LoopBody { // break / continue / return are told apart, as inside go_loop
+			x.inLoop, x.loopCont, x.loopState = true, true, term
+			x.retType = "((" + stateT + " + " + stateT + ") + " + x.retType + ")"
+		}
 	}
 	x.fnBody = fd.Body.List
 	x.body = body
@@ -830,7 +879,7 @@ func xRecordDecl(name string, nm *types.Named, x *xl) string {
 	st := nm.Underlying().(*types.Struct)
 	var fs []string
 	for _, f := range x.recFields(st) {
-		fs = append(fs, name+"_"+f.Name()+" : "+x.coqType(nil, f.Type()))
+		fs = append(fs, name+"_"+f.Name()+" : "+x.memberType(nil, f.Type()))
 	}
 	return fmt.Sprintf("(* struct %s *)\nRecord %s := { %s }.\n", nm.String(), name, strings.Join(fs, ";\n  "))
 }
